@@ -145,7 +145,7 @@ pub fn record(args: &[String]) {
         let mut src = fixture(case.fixture);
         if src.is_empty() { continue; }
         if case.name == "jxl_large" { src = match jxl_largesize(&src) { Some(s) => s, None => continue }; }
-        for kind in ["default", "box", "update"] {
+        for kind in ["default", "box", "update", "sha512", "v1"] {
             let overlay = if kind == "box" { json!({"core": {"prefer_compress_manifests": true}}) } else { Value::Null };
             let signed = if kind == "update" {
                 // an update manifest on top of a signed asset (jpeg / png / mp4 only)
@@ -161,7 +161,11 @@ pub fn record(args: &[String]) {
                 }));
                 match r { Ok(Ok(s)) => s, Ok(Err(e)) => { out.emit(&json!({"format": case.name, "kind": kind, "setup_error": format!("{e}")})); continue } Err(p) => { out.emit(&json!({"format": case.name, "kind": kind, "setup_error": p})); continue } }
             } else {
-                match sign_bytes(ctx(&overlay), &simple_manifest_json("c01", case.fmt), case.fmt, &src, "ed25519") {
+                // a claim that hashes with sha512 / a version-1 claim
+                let mut def = simple_manifest_json("c01", case.fmt);
+                if kind == "sha512" { def["hash_alg"] = json!("sha512"); }
+                if kind == "v1" { def["claim_version"] = json!(1); }
+                match sign_bytes(ctx(&overlay), &def, case.fmt, &src, "ed25519") {
                     Ok(s) => s,
                     Err(e) => { out.emit(&json!({"format": case.name, "kind": kind, "setup_error": format!("{e}")})); continue }
                 }
